@@ -279,6 +279,11 @@ def analyse(obs: Obs, prog):
                 acc[c[2]] = t
     w = W(SG, "edit")
     obs.add({"C06", "C38"}, "REQ-ACCEPT", "Static.edit", set(acc) == {"Update", "StaticRequest", "Regenerate"}, derived=str(sorted(acc)), expected="Update, StaticRequest, Regenerate", where=w)
+    from .common import dispatch_roles
+    ev_d = Evaluator(prog)
+    ev_d.opaque_methods |= {"edit_update", "edit_static_edit_request", "edit_regenerate"}
+    r_d = ev_d.eval_fn(SG.methods["edit"], SG.module, SG)
+    dispatch_roles(obs, {"C05", "C07", "C38", "C06"}, "Static", r_d, {"Update": ["constraint"], "StaticRequest": ["addressed"], "Regenerate": ["selection"]}, w)
     obs.add({"C06"}, "REQ-EXHAUSTIVE", "Static.edit", len(r.raises) >= 1, derived=f"{len(r.raises)} raising default arm(s)", expected="unsupported requests raise", where=w)
     # trace() / dispatch writer-reader agreement
     _, tf = prog.func("trace", MOD)
